@@ -2,7 +2,11 @@
 
 package app
 
-import "errors"
+import (
+	"errors"
+
+	m "github.com/Eyevinn/dash-mpd/mpd"
+)
 
 // vPhase maps the result of a segment lookup to the life-cycle phase of C04:
 // 0 = too early (425), 1 = available (200), 2 = gone (410), 3 = not found (404), 4 = other error.
@@ -76,4 +80,20 @@ func vAudioTimeOracle(refTicks, refTs, frameDur, audioTs int) int {
 	den := refTs * frameDur
 	q := (num + den - 1) / den
 	return q * frameDur
+}
+
+// ---- publishTime formatting: ConvertToDateTimeMS (time formatting) is stubbed under symbolic execution ----
+
+var vLastDateTimeMS int64
+
+func vStubConvertToDateTimeMS(ms int64) m.DateTime {
+	vLastDateTimeMS = ms
+	return ""
+}
+
+func vStubDateTimeMS(dt m.DateTime) int { return int(vLastDateTimeMS) }
+
+// vPubMS is the publishTime (Unix ms) the MPD carries for a publish time in seconds, as written by the real code.
+func vPubMS(sec float64) int {
+	return vDateTimeMS(publishTimeToDateTime(sec))
 }
